@@ -2,17 +2,30 @@
 import verif as V
 
 PROP = "C01"
-SPEC = "Bng.Spec.C01"
+SPEC = ["Bng.Spec.C01", "Bng.Spec.C01Epoch", "Bng.Spec.C01FreeList", "Bng.Spec.C01Nexus"]
 # monitors of the pool specification that belong to C01 (C05 owns count/exhaustion/lost/total)
 MON = ["unique", "idempotent", "range", "agree"]
+# epoch (lease) allocator: Bng.LeaseSpec adds expiry/reclaimed to the pool monitor
+MON_EPOCH = ["unique", "idempotent", "range", "agree"]
 COMPS = [
+    V.Component("epoch", monitors=MON_EPOCH, ignore_diff_ops=["stats"]),
     V.Component("bitmap", monitors=MON, ignore_diff_ops=["stats"]),
+    # the five free-list pools (one generic Lean model, Bng.FreeList) and the hash allocator
+    V.Component("dhcppool", monitors=MON, ignore_diff_ops=["stats"]),
+    V.Component("v6addr", harness="v6pool", monitors=MON, exec_env={"V6POOL_KIND": "addr"}),
+    V.Component("v6prefix", harness="v6pool", monitors=MON, exec_env={"V6POOL_KIND": "prefix"}),
+    V.Component("pppoepool", monitors=MON),
+    V.Component("localpool", monitors=MON, ignore_diff_ops=["stats"]),
+    V.Component("nexushash", monitors=MON),
 ]
 LEVEL = ("Uniqueness, in-range and idempotence are theorems over the Lean models of the pool implementations "
          "for ALL operation histories and pool geometries (invariant + induction over the operation list); the "
          "models are tied to the real Go code by differential execution of generated operation sequences, and the "
          "abstract pool monitor (the definition the refinement theorems are about) judges the real code's answers.")
 ASSUME = [
+    "free-list pools: the network is what net.ParseCIDR returns (masked base, prefix length within the family); pppoe.NewIPPool and dhcpv6.NewAddressPool on the all-addresses network (/0) are excluded (the former does not terminate); keys (MAC, DUID, session id, subscriber id) are mapped injectively to numbers; pppoe.IPPool has no mutex (its callers run on one goroutine)",
+    "nexushash: allocateFromPool is driven through the verif hook with the pool record's CIDR; the surrounding subscriber-record bookkeeping of AllocateIPForSubscriber is not driven; uniqueness is FALSE for this allocator (known finding D1-nexus-hash)",
+    "epoch: IPv4 base network masked to its prefix, ones <= PrefixLength <= 32 (what NewEpochBitmapAllocator accepts); the epoch counter is a Nat (the uint64 wraps consistently with % 4)",
     "each mutex-protected method is one atomic step (lock discipline of the pool types); data races inside a critical section are not modelled",
     "subscriber ids are non-empty strings; net.ParseCIDR masks the base address",
     "bitmap: geometries with fewer than 2^64 units (the 2^80-unit geometry is listed as a known finding of C05)",
